@@ -23,8 +23,8 @@ ASSUMPTIONS = [
     "page's own XSCHORUSCC give 4 pi, which is what the oracle uses (documentation typo, not a code finding); "
     "unit conversion 1 GeV^-2 = 3.893793e10 x 1e-38 cm^2 = 3.893793e8 pb",
     "errors are not asserted (the property speaks of values)",
-    "configurations excluded by construction: polarised CC, polarised N3LO, TMC for gL/g4 (hence g5 with TMC), "
-    "N3LO massive NC",
+    "configurations excluded by construction (documented gaps, explicitly rejected by the code): polarised CC, polarised N3LO, "
+    "TMC for gL/g4 (hence g5 with TMC)",
 ]
 BUDGET = {"quick": {"examples": 2400, "wall": 400}, "thorough": {"examples": 40000, "wall": 2400}}
 MANDATORY = {
